@@ -65,6 +65,8 @@ OPS = {
         "fragment NF on Node { id } query Q { a: node { id ... on User { name } } b: node { ...NF ... on Bot { model } } c: nodes { id ... on Ghost { id } } d: node { ...NF } }",
     # fragments on an interface that select __typename themselves (directly / through a chain on the same interface)
     "interface_fragment_selecting_typename": "fragment NodeF on Node { __typename id } fragment NodeG on Node { ...NodeF } query Q { node { ...NodeF } nodes { ...NodeG } me { ...NodeF } }",
+    # an alias whose Python name (snake-cased, lower-cased) is the name of the very field it aliases: the response key is still the alias
+    "alias_that_maps_back_to_the_field_name": "query Q { me { Created: created Name: name BEST: best { Id: id } } node { ID: id ... on User { Role: role } } }",
     "skip_with_literal_conditions": "query Q { me { id name @skip(if: true) score @include(if: false) role @include(if: true) seen @skip(if: false) } }",
 }
 KNOWN_OPS = {
